@@ -343,7 +343,7 @@ def reshape(x, shape, merge_chunks=True, limit=None):
 
     meta = meta_from_array(x, len(shape))
 
-    name = "reshape-" + tokenize(x, shape)
+    name = "reshape-" + tokenize(x, shape, merge_chunks, limit)
 
     if x.npartitions == 1:
         key = next(flatten(x.__dask_keys__()))
